@@ -137,7 +137,7 @@ class Oracle:
         if op == "dump":
             x = self.arrs.get(t[1])
             return ("arr", x) if x is not None else None
-        if op == "arr":
+        if op in ("arr", "iarr"):
             getattr(self, "nds", {}).pop(t[1], None)
             ds = self.dsets.get(t[2])
             if ds is None:
@@ -207,6 +207,13 @@ class Oracle:
             f = {"radd": lambda v: c + v, "rsub": lambda v: c - v, "rmul": lambda v: c * v,
                  "rdiv": lambda v: c / v}[op]
             return ("arr", Ref(list(x.dims), {k: f(v) for k, v in x.data.items()}))
+        if op in ("absi", "signi"):
+            x = A.get(t[1])
+            if x is None:
+                return None
+            f = abs if op == "absi" else (lambda v: Fraction((v > 0) - (v < 0)))
+            x.data = {k: f(v) for k, v in x.data.items()}
+            return ("arr", x)
         if op in ("neg", "abs", "absm", "sign"):
             x = A.get(t[2])
             if x is None:
